@@ -235,7 +235,6 @@ type span struct{ start, end int }
 
 // RunDrv drives the real NETCONF driver through the session and judges every reply.
 func RunDrv(s DrvSession) mon.Result {
-	t0 := time.Now()
 	caps := []string{ncsim.Cap10}
 	if s.Version == "1.1" {
 		caps = []string{ncsim.Cap11}
@@ -463,7 +462,6 @@ func RunDrv(s DrvSession) mon.Result {
 		tl = append(tl, t)
 	}
 	sort.Strings(tl)
-	_ = t0
 	if len(soft) > 0 {
 		sort.SliceStable(soft, func(i, j int) bool {
 			if keyRank(soft[i].Key) != keyRank(soft[j].Key) {
